@@ -98,6 +98,18 @@ CHECKS.update({
         technique="TLA+ model checking (TLC) + TLC trace validation of routed writes observed at scripted owners", ref="5/C10"),
 })
 
+L2_NOTE = ("Real anndb server processes (cmd/anndb's main with the verif hooks wired) on loopback ports with on-disk Badger directories, driven over their public gRPC services; "
+           "crash = SIGKILL; zero-group snapshots are requested through the verif hook instead of waiting for 5000 entries; views are read after a bounded quiescence wait.")
+CHECKS.update({
+    "C14": dict(
+        text="Catalogue.tla models the catalogue state machine over the zero group's log with snapshots, restores and restarts, and the two switches RestoreReplaces / WireFirst (TLC: every node equals the replay of the log it applied - holds in the repaired positions, counterexamples for add-only restore and for starting the apply loop before the consumer is wired). Four scenarios run on three real server processes - create / delete through different nodes, kill -9 and restart of a follower and of the bootstrap node, with the consumer wired late (gate), after a zero-group snapshot, after a node left - and ClusterViewTrace compares every node's List() with what the acknowledged operations imply (ids, dimension, partitions, replica sets identical on all nodes, also after restart).",
+        note=L2_NOTE + " The add-only restore of a catalogue snapshot into a non-empty manager (lagging follower) is modelled (RestoreReplaces) but not reproduced on real servers.",
+        technique="TLA+ model checking (TLC) + scenarios on real server processes + TLC trace validation of every node's catalogue view", ref="5/C14"),
+    "C20": dict(
+        text="Membership.tla models the address book fed by the membership log, the join hand-shake, compaction and restart, with the switches SnapshotHasBook / BootHasAddr (TLC: a caught-up member lists exactly the members with usable addresses - holds in the repaired positions, counterexamples for both shipped positions; the empty bootstrap address was found by TLC first and then confirmed on real servers). The same four real-server scenarios; ClusterViewTrace compares every node's ListNodes() with the acknowledged joins and removals, including after restart from a compacted log.",
+        note=L2_NOTE, technique="TLA+ model checking (TLC) + scenarios on real server processes + TLC trace validation of every node's membership view", ref="5/C20"),
+})
+
 NOT_APPLICABLE = {
     "C15": "Numeric agreement and memory safety of hand-written AVX/SSE kernels: no state machine to specify, TLC has neither IEEE-754 floats nor a memory model; a differential/sanitizer technique would be needed (DESIGN.md section 6).",
 }
